@@ -197,6 +197,16 @@ theorem prefix_foldl_pushNew (l L : List α) : L <+: l.foldl pushNew L := by
     · exact List.prefix_refl L
     · exact List.prefix_append L [a]
 
+/-- offering tokens that are all present changes nothing (`locAdd` is idempotent on separated strings) -/
+theorem foldl_pushNew_of_subset (l L : List α) (h : ∀ x ∈ l, x ∈ L) : l.foldl pushNew L = L := by
+  induction l with
+  | nil => rfl
+  | cons a r ih =>
+    simp only [List.foldl_cons]
+    have : pushNew L a = L := by unfold pushNew; simp [h a List.mem_cons_self]
+    rw [this]
+    exact ih (fun x hx => h x (List.mem_cons_of_mem _ hx))
+
 theorem mem_dedupFirst (l : List α) (x : α) : x ∈ dedupFirst l ↔ x ∈ l := by
   unfold dedupFirst; rw [mem_foldl_pushNew]; simp
 
@@ -588,27 +598,33 @@ structure Mono (s s' : State) : Prop where
   nodesLen : s'.nodes.length = s.nodes.length
   getLoc : ∀ i, (s'.nd i).getLoc = (s.nd i).getLoc
   pass : ∀ i r, r ∈ (s.nd i).results → r.status = "PASS" → r ∈ (s'.nd i).results
+  hidden : ∀ x ∈ s'.hidden, x ∈ s.hidden
 
-theorem Mono.refl (s : State) : Mono s s := ⟨rfl, fun _ => rfl, fun _ _ h _ => h⟩
+theorem Mono.refl (s : State) : Mono s s := ⟨rfl, fun _ => rfl, fun _ _ h _ => h, fun _ h => h⟩
 
 theorem Mono.trans {s s1 s2 : State} (a : Mono s s1) (b : Mono s1 s2) : Mono s s2 :=
-  ⟨b.nodesLen.trans a.nodesLen, fun i => (b.getLoc i).trans (a.getLoc i), fun i r h hp => b.pass i r (a.pass i r h hp) hp⟩
+  ⟨b.nodesLen.trans a.nodesLen, fun i => (b.getLoc i).trans (a.getLoc i), fun i r h hp => b.pass i r (a.pass i r h hp) hp,
+    fun x hx => a.hidden x (b.hidden x hx)⟩
 
-theorem Mono.quiet {s s' : State} (hn : s'.nodes = s.nodes) : Mono s s' :=
-  ⟨by rw [hn], fun i => by rw [nd_of_nodes_eq hn], fun i r h _ => by rw [nd_of_nodes_eq hn]; exact h⟩
+theorem Mono.quiet {s s' : State} (hn : s'.nodes = s.nodes) (hh : ∀ x ∈ s'.hidden, x ∈ s.hidden) : Mono s s' :=
+  ⟨by rw [hn], fun i => by rw [nd_of_nodes_eq hn], fun i r h _ => by rw [nd_of_nodes_eq hn]; exact h, hh⟩
 
-theorem Mono.of_nd {s s' : State} (hl : s'.nodes.length = s.nodes.length) (hnd : ∀ i, s'.nd i = s.nd i) : Mono s s' :=
-  ⟨hl, fun i => by rw [hnd], fun i r h _ => by rw [hnd]; exact h⟩
+theorem Mono.quiet' {s s' : State} (hn : s'.nodes = s.nodes) (hh : s'.hidden = s.hidden) : Mono s s' :=
+  Mono.quiet hn (fun x hx => by rw [← hh]; exact hx)
+
+theorem Mono.of_nd {s s' : State} (hl : s'.nodes.length = s.nodes.length) (hnd : ∀ i, s'.nd i = s.nd i)
+    (hh : s'.hidden = s.hidden) : Mono s s' :=
+  ⟨hl, fun i => by rw [hnd], fun i r h _ => by rw [hnd]; exact h, fun x hx => by rw [← hh]; exact hx⟩
 
 theorem mono_setNd (s : State) (m : Nat) (f : NodeD → NodeD) (hg : ∀ d, (f d).getLoc = d.getLoc)
     (hr : ∀ d r, r ∈ d.results → r.status = "PASS" → r ∈ (f d).results) : Mono s (s.setNd m f) := by
-  refine ⟨nodes_length_setNd s m f, fun i => nd_setNd_proj (·.getLoc) s m f hg i, fun i r h hp => ?_⟩
+  refine ⟨nodes_length_setNd s m f, fun i => nd_setNd_proj (·.getLoc) s m f hg i, fun i r h hp => ?_, fun _ h => h⟩
   rcases nd_setNd_cases s m f i with h' | ⟨_, _, h'⟩
   · rw [h']; exact h
   · rw [h']; exact hr _ r h hp
 
-theorem mono_setWd (s : State) (v : Nat) (f : WorkerD → WorkerD) : Mono s (s.setWd v f) := Mono.quiet rfl
-theorem mono_setCr (s : State) (c : Nat) (f : ClassRegs → ClassRegs) : Mono s (s.setCr c f) := Mono.quiet rfl
+theorem mono_setWd (s : State) (v : Nat) (f : WorkerD → WorkerD) : Mono s (s.setWd v f) := Mono.quiet' rfl rfl
+theorem mono_setCr (s : State) (c : Nat) (f : ClassRegs → ClassRegs) : Mono s (s.setCr c f) := Mono.quiet' rfl rfl
 
 theorem mono_foldl {β} (f : State → β → State) (h : ∀ s b, Mono s (f s b)) (l : List β) (s : State) :
     Mono s (l.foldl f s) := by
@@ -618,11 +634,13 @@ theorem mono_foldl {β} (f : State → β → State) (h : ∀ s b, Mono s (f s b
 
 theorem mono_pickChild (g : Graph) (s : State) (n v x : Nat) (s' : State) (h : pickChild g s n v = some (x, s')) :
     Mono s (pushPath s' v x) :=
-  (Mono.of_nd (pickChild_qt v none g s n v x s' h).nodesLen (started_pickChild g s n v x s' h)).trans (mono_setWd _ _ _)
+  (Mono.of_nd (pickChild_qt v none g s n v x s' h).nodesLen (started_pickChild g s n v x s' h)
+    (pickChild_qt v none g s n v x s' h).hidden).trans (mono_setWd _ _ _)
 
 theorem mono_pickParent (g : Graph) (s : State) (n v x : Nat) (s' : State) (h : pickParent g s n v = some (x, s')) :
     Mono s (pushPath s' v x) :=
-  (Mono.of_nd (pickParent_qt v none g s n v x s' h).nodesLen (started_pickParent g s n v x s' h)).trans (mono_setWd _ _ _)
+  (Mono.of_nd (pickParent_qt v none g s n v x s' h).nodesLen (started_pickParent g s n v x s' h)
+    (pickParent_qt v none g s n v x s' h).hidden).trans (mono_setWd _ _ _)
 
 theorem mono_runDecision (g : Graph) (s : State) (n v : Nat) (b : Bool) (s1 : State) (e1 : List Event)
     (h : runDecision g s n v = .ok (b, s1, e1)) : Mono s s1 := by
@@ -631,7 +649,7 @@ theorem mono_runDecision (g : Graph) (s : State) (n v : Nat) (b : Bool) (s1 : St
   · rw [h]; exact mono_setNd s n _ (fun _ => rfl) (fun _ _ h _ => h)
 
 theorem mono_syncStates (g : Graph) (s : State) (n v : Nat) (rv : Option (List String)) :
-    Mono s (syncStates g s n v rv).1 := Mono.quiet (syncStates_frame g s n v rv).1
+    Mono s (syncStates g s n v rv).1 := Mono.quiet' (syncStates_frame g s n v rv).1 (syncStates_frame g s n v rv).2.2
 
 theorem mono_reverseNode (g : Graph) (s : State) (n v : Nat) (s' : State) (evs : List Event)
     (h : reverseNode g s n v = .ok (s', evs)) : Mono s s' := by
@@ -722,7 +740,7 @@ theorem afterTraverse_doors (g : Graph) (s : State) (w next prev : Nat) (dir : D
 
 theorem mono_startTest (g : Graph) (s : State) (n v : Nat) (ph : Phase) (dir : Dir) :
     Mono s (startTest g s n v ph dir).1 := by
-  have a1 : Mono s { s with nextTag := s.nextTag + 1 } := Mono.quiet rfl
+  have a1 : Mono s { s with nextTag := s.nextTag + 1 } := Mono.quiet' rfl rfl
   unfold startTest
   dsimp only
   split
@@ -745,11 +763,11 @@ theorem startTest_event (g : Graph) (s : State) (n w : Nat) (ph : Phase) (dir : 
     exact ⟨_, _, he⟩
 
 theorem mono_prepare (g : Graph) (s : State) (v : Nat) : Mono s (prepare g s v) :=
-  Mono.quiet (prepare_frame g s v).1
+  Mono.quiet (prepare_frame g s v).1 (prepare_frame g s v).2.2.2
 
 theorem mono_reportOutcome (g : Graph) (s : State) (w n : Nat) (phase : Phase) (uid : String) (wait : Nat) (out : Outcome) :
     Mono s (reportOutcome g s w n phase uid wait out).1 :=
-  Mono.quiet (reportOutcome_frame g s w n phase uid wait out).1
+  Mono.quiet' (reportOutcome_frame g s w n phase uid wait out).1 (reportOutcome_frame g s w n phase uid wait out).2.2
 
 theorem mono_recordResult (s : State) (v n : Nat) (phase : Phase) (name uid : String) (tag : Nat) (st0 : String)
     (dur : Nat) : Mono s (recordResult s v n phase name uid tag st0 dur).1 := by
@@ -760,7 +778,7 @@ theorem mono_recordResult (s : State) (v n : Nat) (phase : Phase) (name uid : St
     intro b jr
     cases b
     · exact Mono.refl s
-    · exact Mono.quiet rfl
+    · exact Mono.quiet' rfl rfl
   by_cases hp : (phase == Phase.pre) = true
   · simp only [hp, if_true]
     exact (hX _ _).trans (mono_setWd _ v _)
@@ -823,12 +841,13 @@ theorem Listed.mono {g : Graph} {s s' : State} {n : Nat} {vm t : String} (h : Li
 /-- **the location invariant**: every `get_location` entry of every copy is the blank-join of a duplicate-free list
 of location strings, each of which is justified in the current state — the shared pool, or the pool of a worker with
 a passing result of a setup parent through that object -/
-structure LInv (g : Graph) (s : State) : Prop where
+structure LInv (g : Graph) (H : List Nat) (s : State) : Prop where
   nodesLen : s.nodes.length = g.nodes.length
+  hid : ∀ x ∈ s.hidden, x ∈ H
   toks : ∀ n vm, ∃ T, TokAt (allLocs g) (s.nd n).getLoc vm T ∧ ∀ t ∈ T, Listed g s n vm t
 
-theorem LInv.mono {g : Graph} {s s' : State} (h : LInv g s) (m : Mono s s') : LInv g s' :=
-  ⟨m.nodesLen.trans h.nodesLen, fun n vm => by
+theorem LInv.mono {g : Graph} {H : List Nat} {s s' : State} (h : LInv g H s) (m : Mono s s') : LInv g H s' :=
+  ⟨m.nodesLen.trans h.nodesLen, fun x hx => h.hid x (m.hidden x hx), fun n vm => by
     obtain ⟨T, h1, h2⟩ := h.toks n vm
     exact ⟨T, by rw [m.getLoc]; exact h1, fun t ht => (h2 t ht).mono m.pass⟩⟩
 
@@ -880,14 +899,40 @@ theorem seqOf_congr (gv : Graph) (s s' : State) (n : Nat) (vm : String) (h : ∀
   unfold seqOf locsOf
   simp only [sharedResultWorkerIds_congr gv s s' _ h]
 
+theorem mem_seqOf (gv : Graph) (s : State) (n : Nat) (vm t : String) : t ∈ seqOf gv s n vm ↔ Listed gv s n vm t := by
+  unfold seqOf Listed
+  rw [List.mem_flatMap]
+  constructor
+  · rintro ⟨e, he, hte⟩
+    rw [List.mem_filter] at he
+    exact ⟨e.1, e.2, he.1, by simpa using he.2, hte⟩
+  · rintro ⟨p, vms, he, hvm, ht⟩
+    exact ⟨(p, vms), List.mem_filter.mpr ⟨he, by simpa using hvm⟩, ht⟩
+
+theorem Listed.ofVis {g gv : Graph} (hv : SubVis g gv) {s : State} {n : Nat} {vm t : String} (h : Listed gv s n vm t) :
+    Listed g s n vm t := by
+  obtain ⟨p, vms, h1, h2, h3⟩ := h
+  exact ⟨p, vms, hv.edges n _ h1, h2, by rw [← locsOf_static hv.static]; exact h3⟩
+
+/-- a listed location is the shared pool or the pool of a worker that passed a setup parent through the object -/
+theorem Listed.cases {g : Graph} {s : State} {n : Nat} {vm t : String} (h : Listed g s n vm t) :
+    t = sharedLoc ∨ ∃ p vms v, (p, vms) ∈ (g.node n).setup ∧ vm ∈ vms ∧ v ∈ sharedResultWorkerIds g s p ∧
+      t = workerLoc g v := by
+  obtain ⟨p, vms, h1, h2, h3⟩ := h
+  unfold locsOf at h3
+  rcases List.mem_cons.mp h3 with h3 | h3
+  · exact Or.inl h3
+  · obtain ⟨v, hv, rfl⟩ := List.mem_map.mp h3
+    exact Or.inr ⟨p, vms, v, h1, h2, hv, rfl⟩
+
 /-- the entries of copy `n` in `sd` are those of a state right after `pull_locations` on the graph `gv`: old tokens
 `T0` (all justified) followed by the new ones of `seqOf gv sd n vm` in order of first occurrence -/
 def Fresh (g gv : Graph) (sd : State) (n : Nat) : Prop :=
   ∀ vm, ∃ T0, TokAt (allLocs g) (sd.nd n).getLoc vm ((seqOf gv sd n vm).foldl pushNew T0) ∧ ∀ t ∈ T0, Listed g sd n vm t
 
 /-- `pull_locations` on the visible graph keeps the invariant, and leaves the pulled copy `Fresh` -/
-theorem LInv.pull {g gv : Graph} (hsep : LocsSeparated g) (hv : SubVis g gv) {s : State} (h : LInv g s) (n : Nat) :
-    LInv g (pullLocations gv s n) ∧ ((gv.node n).flat = false → Fresh g gv (pullLocations gv s n) n) := by
+theorem LInv.pull {g gv : Graph} {H : List Nat} (hsep : LocsSeparated g) (hv : SubVis g gv) {s : State} (h : LInv g H s)
+    (n : Nat) : LInv g H (pullLocations gv s n) ∧ ((gv.node n).flat = false → Fresh g gv (pullLocations gv s n) n) := by
   have hres := pull_results gv s n
   have hpl : PassLe s (pullLocations gv s n) := fun i r hr _ => by rw [hres]; exact hr
   by_cases hflat : (gv.node n).flat = true
@@ -910,7 +955,8 @@ theorem LInv.pull {g gv : Graph} (hsep : LocsSeparated g) (hv : SubVis g gv) {s 
       obtain ⟨e, he, hte⟩ := List.mem_flatMap.mp ht
       rw [List.mem_filter] at he
       exact ⟨e.1, e.2, hv.edges n e he.1, by simpa using he.2, by rw [← locsOf_static hv.static]; exact hte⟩
-    refine ⟨⟨(qt_pullLocations 0 none gv s n).nodesLen.trans h.nodesLen, fun m vm => ?_⟩, fun _ vm => ?_⟩
+    refine ⟨⟨(qt_pullLocations 0 none gv s n).nodesLen.trans h.nodesLen,
+      fun x hx => h.hid x (by rw [← (qt_pullLocations 0 none gv s n).hidden]; exact hx), fun m vm => ?_⟩, fun _ vm => ?_⟩
     · by_cases hm : m = n
       · subst hm
         obtain ⟨T0, h1, h2⟩ := key vm
@@ -938,36 +984,36 @@ theorem LInv.pull {g gv : Graph} (hsep : LocsSeparated g) (hv : SubVis g gv) {s 
 /-- provenance of the `locs` field of a start event: it is the `get_location` record of the started copy in a state
 `sd` that satisfies the invariant; for the `plain` and `pre` phases `sd` is the decision state — the state right after
 `pull_locations` on the graph visible then — and the copy is `Fresh` there -/
-def EvL (g : Graph) (e : Event) : Prop :=
+def EvL (g : Graph) (H : List Nat) (e : Event) : Prop :=
   ∀ wid cname uid locs k, e = .start wid cname uid locs k →
-    ∃ n ph sd, cname = clsName g n ph ∧ locs = (sd.nd n).getLoc ∧ LInv g sd ∧ (ph ≠ .main → Fresh g (vis g sd) sd n)
+    ∃ n ph sd, cname = clsName g n ph ∧ locs = (sd.nd n).getLoc ∧ LInv g H sd ∧ (ph ≠ .main → Fresh g (vis g sd) sd n)
 
-def EvsL (g : Graph) (evs : List Event) : Prop := ∀ e ∈ evs, EvL g e
+def EvsL (g : Graph) (H : List Nat) (evs : List Event) : Prop := ∀ e ∈ evs, EvL g H e
 
-theorem EvsL.nil (g : Graph) : EvsL g [] := fun _ h => by simp at h
+theorem EvsL.nil (g : Graph) (H : List Nat) : EvsL g H [] := fun _ h => by simp at h
 
-theorem EvsL.append {g : Graph} {a b : List Event} (ha : EvsL g a) (hb : EvsL g b) : EvsL g (a ++ b) := by
+theorem EvsL.append {g : Graph} {H : List Nat} {a b : List Event} (ha : EvsL g H a) (hb : EvsL g H b) : EvsL g H (a ++ b) := by
   intro e he
   rcases List.mem_append.mp he with he | he
   · exact ha e he
   · exact hb e he
 
-theorem evsL_single (g : Graph) (e : Event) (h : e.isStart = false) : EvsL g [e] := by
+theorem evsL_single (g : Graph) (H : List Nat) (e : Event) (h : e.isStart = false) : EvsL g H [e] := by
   intro e' he wid cname uid locs k heq
   simp only [List.mem_singleton] at he
   rw [he] at heq
   rw [heq] at h
   simp [Event.isStart] at h
 
-theorem DoorsOnly.evsL {evs : List Event} (h : DoorsOnly evs) (g : Graph) : EvsL g evs := by
+theorem DoorsOnly.evsL {evs : List Event} (h : DoorsOnly evs) (g : Graph) (H : List Nat) : EvsL g H evs := by
   intro e he wid cname uid locs k heq
   have := h e he
   rw [heq] at this
   simp [Event.isDoor] at this
 
-theorem startTest_L (g gv : Graph) (hcl : ∀ n ph, clsName gv n ph = clsName g n ph) (s : State) (n w : Nat) (ph : Phase)
-    (dir : Dir) (sd : State) (hg : (s.nd n).getLoc = (sd.nd n).getLoc) (hsd : LInv g sd)
-    (hf : ph ≠ .main → Fresh g (vis g sd) sd n) : EvsL g (startTest gv s n w ph dir).2.1 := by
+theorem startTest_L (g : Graph) (H : List Nat) (gv : Graph) (hcl : ∀ n ph, clsName gv n ph = clsName g n ph) (s : State) (n w : Nat) (ph : Phase)
+    (dir : Dir) (sd : State) (hg : (s.nd n).getLoc = (sd.nd n).getLoc) (hsd : LInv g H sd)
+    (hf : ph ≠ .main → Fresh g (vis g sd) sd n) : EvsL g H (startTest gv s n w ph dir).2.1 := by
   intro e he wid cname uid locs k heq
   obtain ⟨uid', k', he'⟩ := startTest_event gv s n w ph dir e he
   rw [he'] at heq
@@ -976,26 +1022,26 @@ theorem startTest_L (g gv : Graph) (hcl : ∀ n ph, clsName gv n ph = clsName g 
 
 /-! ### the walk -/
 
-theorem traverseNode_L {g : Graph} (hsep : LocsSeparated g) (s : State) (w next prev : Nat) (dir : Dir) (h : LInv g s) :
-    LInv g (traverseNode (vis g s) s w next prev dir).1 ∧ EvsL g (traverseNode (vis g s) s w next prev dir).2.1 := by
+theorem traverseNode_L {g : Graph} {H : List Nat} (hsep : LocsSeparated g) (s : State) (w next prev : Nat) (dir : Dir) (h : LInv g H s) :
+    LInv g H (traverseNode (vis g s) s w next prev dir).1 ∧ EvsL g H (traverseNode (vis g s) s w next prev dir).2.1 := by
   have hcl : ∀ n ph, clsName (vis g s) n ph = clsName g n ph := vis_clsName g s
   unfold traverseNode
   by_cases hocc : isOccupied (vis g s) s next w = true
   · simp only [hocc, if_true]
-    exact ⟨h.mono (mono_afterTraverse _ s w next prev dir), (afterTraverse_doors _ s w next prev dir).evsL g⟩
+    exact ⟨h.mono (mono_afterTraverse _ s w next prev dir), (afterTraverse_doors _ s w next prev dir).evsL g H⟩
   · simp only [hocc, Bool.false_eq_true, if_false]
-    have h0 : LInv g (s.setNd next (fun d => { d with started := some w })) :=
+    have h0 : LInv g H (s.setNd next (fun d => { d with started := some w })) :=
       h.mono (mono_setNd s next _ (fun _ => rfl) (fun _ _ h _ => h))
     obtain ⟨hsd, hfresh⟩ := h0.pull hsep (subVis_vis g s) next
     have hvis : vis g (pullLocations (vis g s) (s.setNd next (fun d => { d with started := some w })) next) = vis g s :=
       vis_congr g _ _ (by rw [(qt_pullLocations 0 none (vis g s) _ next).hidden]; rfl)
     generalize pullLocations (vis g s) (s.setNd next (fun d => { d with started := some w })) next = sd at hsd hfresh hvis ⊢
     cases hd : runDecision (vis g s) sd next w with
-    | error e => exact ⟨hsd, EvsL.nil g⟩
+    | error e => exact ⟨hsd, EvsL.nil g H⟩
     | ok r =>
       obtain ⟨run, s1, evs⟩ := r
       have m1 : Mono sd s1 := mono_runDecision _ sd next w run s1 evs hd
-      have e1 : EvsL g evs := (runDecision_doors _ sd next w run s1 evs hd).evsL g
+      have e1 : EvsL g H evs := (runDecision_doors _ sd next w run s1 evs hd).evsL g H
       dsimp only
       by_cases hrun : run = true
       · subst hrun
@@ -1004,40 +1050,40 @@ theorem traverseNode_L {g : Graph} (hsep : LocsSeparated g) (s : State) (w next 
         have hfr : Fresh g (vis g sd) sd next := by rw [hvis]; exact hfresh hnf
         by_cases hroot : ((vis g s).node next).objectRoot = true
         · simp only [hroot, if_true]
-          show LInv g (startTest (vis g s) (s1.setWd w _) next w .pre dir).1 ∧
-            EvsL g (evs ++ (startTest (vis g s) (s1.setWd w _) next w .pre dir).2.1)
+          show LInv g H (startTest (vis g s) (s1.setWd w _) next w .pre dir).1 ∧
+            EvsL g H (evs ++ (startTest (vis g s) (s1.setWd w _) next w .pre dir).2.1)
           refine ⟨hsd.mono (m1.trans ((mono_setWd s1 w _).trans (mono_startTest _ _ next w .pre dir))), e1.append ?_⟩
-          exact startTest_L g (vis g s) hcl _ next w .pre dir sd (by rw [nd_setWd, m1.getLoc]) hsd (fun _ => hfr)
+          exact startTest_L g H (vis g s) hcl _ next w .pre dir sd (by rw [nd_setWd, m1.getLoc]) hsd (fun _ => hfr)
         · simp only [hroot, Bool.false_eq_true, if_false]
-          show LInv g (startTest (vis g s) s1 next w .plain dir).1 ∧
-            EvsL g (evs ++ (startTest (vis g s) s1 next w .plain dir).2.1)
+          show LInv g H (startTest (vis g s) s1 next w .plain dir).1 ∧
+            EvsL g H (evs ++ (startTest (vis g s) s1 next w .plain dir).2.1)
           exact ⟨hsd.mono (m1.trans (mono_startTest _ s1 next w .plain dir)),
-            e1.append (startTest_L g (vis g s) hcl s1 next w .plain dir sd (m1.getLoc next) hsd (fun _ => hfr))⟩
+            e1.append (startTest_L g H (vis g s) hcl s1 next w .plain dir sd (m1.getLoc next) hsd (fun _ => hfr))⟩
       · simp only [hrun, Bool.false_eq_true, if_false]
-        show LInv g (afterTraverse (vis g s) (finishTraverse s1 next w) w next prev dir).1 ∧
-          EvsL g (evs ++ (afterTraverse (vis g s) (finishTraverse s1 next w) w next prev dir).2.1)
+        show LInv g H (afterTraverse (vis g s) (finishTraverse s1 next w) w next prev dir).1 ∧
+          EvsL g H (evs ++ (afterTraverse (vis g s) (finishTraverse s1 next w) w next prev dir).2.1)
         exact ⟨hsd.mono (m1.trans ((mono_finishTraverse s1 next w).trans (mono_afterTraverse _ _ w next prev dir))),
-          e1.append ((afterTraverse_doors _ _ w next prev dir).evsL g)⟩
+          e1.append ((afterTraverse_doors _ _ w next prev dir).evsL g H)⟩
 
-theorem iter_L {g : Graph} (hsep : LocsSeparated g) (s : State) (w : Nat) (h : LInv g s) :
-    LInv g (iter (vis g s) s w).1 ∧ EvsL g (iter (vis g s) s w).2.1 := by
+theorem iter_L {g : Graph} {H : List Nat} (hsep : LocsSeparated g) (s : State) (w : Nat) (h : LInv g H s) :
+    LInv g H (iter (vis g s) s w).1 ∧ EvsL g H (iter (vis g s) s w).2.1 := by
   unfold iter
   dsimp only
   split
   · split
-    · exact ⟨h.mono (mono_setWd s w _), evsL_single g _ rfl⟩
-    · exact ⟨h, EvsL.nil g⟩
+    · exact ⟨h.mono (mono_setWd s w _), evsL_single g H _ rfl⟩
+    · exact ⟨h, EvsL.nil g H⟩
   · cases hl : (s.wd w).path.getLast? with
-    | none => exact ⟨h, EvsL.nil g⟩
+    | none => exact ⟨h, EvsL.nil g H⟩
     | some next =>
       dsimp only
       split
       · cases hp : pickChild (vis g s) s next w with
-        | none => exact ⟨h, EvsL.nil g⟩
-        | some r => obtain ⟨x, s2⟩ := r; exact ⟨h.mono (mono_pickChild _ s next w x s2 hp), EvsL.nil g⟩
+        | none => exact ⟨h, EvsL.nil g H⟩
+        | some r => obtain ⟨x, s2⟩ := r; exact ⟨h.mono (mono_pickChild _ s next w x s2 hp), EvsL.nil g H⟩
       · split
         · -- the bounce
-          refine ⟨h.mono ?_, evsL_single g _ rfl⟩
+          refine ⟨h.mono ?_, evsL_single g H _ rfl⟩
           show Mono s (State.setWd _ w _)
           refine Mono.trans ?_ (mono_setWd _ w _)
           split
@@ -1050,27 +1096,27 @@ theorem iter_L {g : Graph} (hsep : LocsSeparated g) (s : State) (w : Nat) (h : L
           · split
             · exact traverseNode_L hsep s w next _ .up h
             · cases hp : pickParent (vis g s) s next w with
-              | none => exact ⟨h, EvsL.nil g⟩
-              | some r => obtain ⟨x, s2⟩ := r; exact ⟨h.mono (mono_pickParent _ s next w x s2 hp), EvsL.nil g⟩
+              | none => exact ⟨h, EvsL.nil g H⟩
+              | some r => obtain ⟨x, s2⟩ := r; exact ⟨h.mono (mono_pickParent _ s next w x s2 hp), EvsL.nil g H⟩
           · split
             · split
               · cases hp : pickParent (vis g s) s next w with
-                | none => exact ⟨h, EvsL.nil g⟩
-                | some r => obtain ⟨x, s2⟩ := r; exact ⟨h.mono (mono_pickParent _ s next w x s2 hp), EvsL.nil g⟩
+                | none => exact ⟨h, EvsL.nil g H⟩
+                | some r => obtain ⟨x, s2⟩ := r; exact ⟨h.mono (mono_pickParent _ s next w x s2 hp), EvsL.nil g H⟩
               · exact traverseNode_L hsep s w next _ .down h
-            · exact ⟨h, EvsL.nil g⟩
+            · exact ⟨h, EvsL.nil g H⟩
 
-theorem iterL_L {g : Graph} (hsep : LocsSeparated g) (s : State) (w : Nat) (h : LInv g s) :
-    LInv g (iterL g s w).1 ∧ EvsL g (iterL g s w).2.1 := by
+theorem iterL_L {g : Graph} {H : List Nat} (hsep : LocsSeparated g) (s : State) (w : Nat) (h : LInv g H s) :
+    LInv g H (iterL g s w).1 ∧ EvsL g H (iterL g s w).2.1 := by
   unfold iterL
   split
   · exact iter_L hsep s w h
   · exact iter_L hsep (prepare g s w) w (h.mono (mono_prepare g s w))
 
-theorem runLoop_L {g : Graph} (hsep : LocsSeparated g) (w : Nat) (fuel : Nat) (s : State) (evs : List Event)
-    (h : LInv g s) (he : EvsL g evs) : LInv g (runLoop g w fuel s evs).1 ∧ EvsL g (runLoop g w fuel s evs).2 := by
+theorem runLoop_L {g : Graph} {H : List Nat} (hsep : LocsSeparated g) (w : Nat) (fuel : Nat) (s : State) (evs : List Event)
+    (h : LInv g H s) (he : EvsL g H evs) : LInv g H (runLoop g w fuel s evs).1 ∧ EvsL g H (runLoop g w fuel s evs).2 := by
   induction fuel generalizing s evs with
-  | zero => exact ⟨h, he.append (evsL_single g _ rfl)⟩
+  | zero => exact ⟨h, he.append (evsL_single g H _ rfl)⟩
   | succ fuel ih =>
     unfold runLoop
     dsimp only
@@ -1081,60 +1127,60 @@ theorem runLoop_L {g : Graph} (hsep : LocsSeparated g) (w : Nat) (fuel : Nat) (s
     · next s1 e heq => rw [heq] at h0; exact ⟨h0.1, he.append h0.2⟩
     · next s1 e what heq =>
       rw [heq] at h0
-      exact ⟨h0.1.mono (mono_setWd s1 w _), (he.append h0.2).append (evsL_single g _ rfl)⟩
+      exact ⟨h0.1.mono (mono_setWd s1 w _), (he.append h0.2).append (evsL_single g H _ rfl)⟩
 
-theorem continueAfter_L {g : Graph} (hsep : LocsSeparated g) (w n : Nat) (phase : Phase) (dir : Dir) (fuel : Nat)
-    (s : State) (ok : Bool) (evs : List Event) (h : LInv g s) (he : EvsL g evs) :
-    LInv g (resumeTest.continueAfter g w n phase dir fuel s ok evs).1 ∧
-      EvsL g (resumeTest.continueAfter g w n phase dir fuel s ok evs).2 := by
+theorem continueAfter_L {g : Graph} {H : List Nat} (hsep : LocsSeparated g) (w n : Nat) (phase : Phase) (dir : Dir) (fuel : Nat)
+    (s : State) (ok : Bool) (evs : List Event) (h : LInv g H s) (he : EvsL g H evs) :
+    LInv g H (resumeTest.continueAfter g w n phase dir fuel s ok evs).1 ∧
+      EvsL g H (resumeTest.continueAfter g w n phase dir fuel s ok evs).2 := by
   unfold resumeTest.continueAfter
   dsimp only
   split
-  · show LInv g (startTest g s n w .main dir).1 ∧ EvsL g (evs ++ (startTest g s n w .main dir).2.1)
+  · show LInv g H (startTest g s n w .main dir).1 ∧ EvsL g H (evs ++ (startTest g s n w .main dir).2.1)
     exact ⟨h.mono (mono_startTest g s n w .main dir),
-      he.append (startTest_L g g (fun _ _ => rfl) s n w .main dir s rfl h (fun hm => absurd rfl hm))⟩
+      he.append (startTest_L g H g (fun _ _ => rfl) s n w .main dir s rfl h (fun hm => absurd rfl hm))⟩
   · generalize hsF : finishTraverse (if (phase == Phase.pre) = true then
           s.setNd n (fun d => { d with results := d.results ++ (s.wd w).preResults.drop d.results.length })
         else s) n w = sF
-    have hF : LInv g sF := by
+    have hF : LInv g H sF := by
       rw [← hsF]
       refine h.mono (Mono.trans ?_ (mono_finishTraverse _ n w))
       split
       · exact mono_setNd s n _ (fun _ => rfl) (fun _ r h _ => List.mem_append_left _ h)
       · exact Mono.refl s
     have hA := hF.mono (mono_afterTraverse (vis g sF) sF w n ((s.wd w).path.getD ((s.wd w).path.length - 2) 0) dir)
-    have hD := (afterTraverse_doors (vis g sF) sF w n ((s.wd w).path.getD ((s.wd w).path.length - 2) 0) dir).evsL g
+    have hD := (afterTraverse_doors (vis g sF) sF w n ((s.wd w).path.getD ((s.wd w).path.length - 2) 0) dir).evsL g H
     generalize afterTraverse (vis g sF) sF w n ((s.wd w).path.getD ((s.wd w).path.length - 2) 0) dir = r at hA hD
     obtain ⟨s1, e2, fl⟩ := r
     cases fl with
-    | raise what => exact ⟨hA.mono (mono_setWd s1 w _), (he.append hD).append (evsL_single g _ rfl)⟩
+    | raise what => exact ⟨hA.mono (mono_setWd s1 w _), (he.append hD).append (evsL_single g H _ rfl)⟩
     | cont => exact runLoop_L hsep w fuel s1 _ hA (he.append hD)
     | suspend => exact runLoop_L hsep w fuel s1 _ hA (he.append hD)
     | exit => exact runLoop_L hsep w fuel s1 _ hA (he.append hD)
 
-theorem reportOutcome_evsL (g : Graph) (s : State) (w n : Nat) (phase : Phase) (uid : String) (wait : Nat) (out : Outcome) :
-    EvsL g (reportOutcome g s w n phase uid wait out).2 := by
+theorem reportOutcome_evsL (g : Graph) (H : List Nat) (s : State) (w n : Nat) (phase : Phase) (uid : String) (wait : Nat) (out : Outcome) :
+    EvsL g H (reportOutcome g s w n phase uid wait out).2 := by
   unfold reportOutcome
   dsimp only
   split
   · split
-    all_goals exact evsL_single g _ rfl
-  · exact EvsL.nil g
+    all_goals exact evsL_single g H _ rfl
+  · exact EvsL.nil g H
 
 /-- **one scheduler step keeps the location invariant, and every start event it emits carries entries of a state
 that satisfies it** -/
-theorem resume_L {g : Graph} (hsep : LocsSeparated g) (s : State) (w : Nat) (out : Outcome) (fuel : Nat) (h : LInv g s) :
-    LInv g (resume g s w out fuel).1 ∧ EvsL g (resume g s w out fuel).2 := by
+theorem resume_L {g : Graph} {H : List Nat} (hsep : LocsSeparated g) (s : State) (w : Nat) (out : Outcome) (fuel : Nat) (h : LInv g H s) :
+    LInv g H (resume g s w out fuel).1 ∧ EvsL g H (resume g s w out fuel).2 := by
   unfold resume
   split
-  · exact runLoop_L hsep w fuel s [] h (EvsL.nil g)
-  · exact runLoop_L hsep w fuel s [] h (EvsL.nil g)
+  · exact runLoop_L hsep w fuel s [] h (EvsL.nil g H)
+  · exact runLoop_L hsep w fuel s [] h (EvsL.nil g H)
   · next n phase dir uid tag wait heq =>
     rw [resumeTest_eq]
     have hA := h.mono (mono_reportOutcome g s w n phase uid wait out)
-    have h0 := reportOutcome_evsL g s w n phase uid wait out
-    have hs : ∀ wid q, EvsL g ((reportOutcome g s w n phase uid wait out).2 ++ [Event.sleep wid q]) := fun wid q =>
-      h0.append (evsL_single g _ rfl)
+    have h0 := reportOutcome_evsL g H s w n phase uid wait out
+    have hs : ∀ wid q, EvsL g H ((reportOutcome g s w n phase uid wait out).2 ++ [Event.sleep wid q]) := fun wid q =>
+      h0.append (evsL_single g H _ rfl)
     split
     · exact continueAfter_L hsep w n phase dir fuel _ _ _ (hA.mono (mono_recordResult _ w n phase _ uid tag _ _)) h0
     · split
@@ -1142,24 +1188,52 @@ theorem resume_L {g : Graph} (hsep : LocsSeparated g) (s : State) (w : Nat) (out
       · split
         · exact ⟨hA.mono (mono_setWd _ w _), hs _ _⟩
         · exact continueAfter_L hsep w n phase dir fuel _ _ _ hA h0
-  · exact ⟨h, EvsL.nil g⟩
-  · exact ⟨h, EvsL.nil g⟩
+  · exact ⟨h, EvsL.nil g H⟩
+  · exact ⟨h, EvsL.nil g H⟩
 
 theorem LInv.init (g : Graph) (ncls : Nat) (store : List (String × List (String × String))) (hidden : List Nat) :
-    LInv g (initState g ncls store hidden) := by
+    LInv g hidden (initState g ncls store hidden) := by
   have hnd : ∀ i, ((initState g ncls store hidden).nd i).getLoc = [] := by
     intro i
     unfold initState State.nd
     simp only [List.getD_eq_getElem?_getD, List.getElem?_map]
     cases g.nodes[i]? <;> rfl
-  refine ⟨by simp [initState], fun n vm => ⟨[], ?_, fun t ht => by simp at ht⟩⟩
+  refine ⟨by simp [initState], fun x hx => hx, fun n vm => ⟨[], ?_, fun t ht => by simp at ht⟩⟩
   rw [hnd]
   exact tokAt_nil _ _
 
-theorem ReachableF.linv {g : Graph} (hsep : LocsSeparated g) {ncls : Nat} {store : List (String × List (String × String))}
-    {s : State} (h : ReachableF g ncls store s) : LInv g s := by
+/-- the states reachable from the initial state in which exactly the nodes `H` are not parsed yet (`H = []`: a pre-parsed
+graph) -/
+inductive ReachableFrom (g : Graph) (ncls : Nat) (store : List (String × List (String × String))) (H : List Nat) : State → Prop
+  | init : ReachableFrom g ncls store H (initState g ncls store H)
+  | step (s : State) (w : Nat) (out : Outcome) (fuel : Nat) :
+      ReachableFrom g ncls store H s → w < g.workers.length → 0 < fuel → ReachableFrom g ncls store H (resume g s w out fuel).1
+
+theorem ReachableFrom.reachableF {g : Graph} {ncls : Nat} {store : List (String × List (String × String))} {H : List Nat}
+    {s : State} (h : ReachableFrom g ncls store H s) : ReachableF g ncls store s := by
   induction h with
-  | init hidden => exact LInv.init g ncls store hidden
+  | init => exact .init H
+  | step s w out fuel _ hw hf ih => exact .step s w out fuel ih hw hf
+
+theorem ReachableF.from {g : Graph} {ncls : Nat} {store : List (String × List (String × String))} {s : State}
+    (h : ReachableF g ncls store s) : ∃ H, ReachableFrom g ncls store H s := by
+  induction h with
+  | init hidden => exact ⟨hidden, .init⟩
+  | step s w out fuel _ hw hf ih => obtain ⟨H, ih⟩ := ih; exact ⟨H, .step s w out fuel ih hw hf⟩
+
+theorem ReachableFrom.linv {g : Graph} (hsep : LocsSeparated g) {ncls : Nat} {store : List (String × List (String × String))}
+    {H : List Nat} {s : State} (h : ReachableFrom g ncls store H s) : LInv g H s := by
+  induction h with
+  | init => exact LInv.init g ncls store H
   | step s w out fuel _ _ _ ih => exact (resume_L hsep s w out fuel ih).1
+
+/-- on a pre-parsed graph nothing is ever hidden: the visible graph is the graph -/
+theorem vis_of_hidden_nil (g : Graph) (s : State) (h : ∀ x ∈ s.hidden, x ∈ ([] : List Nat)) : vis g s = g := by
+  have : s.hidden = [] := by
+    cases hh : s.hidden with
+    | nil => rfl
+    | cons a r => rw [hh] at h; exact absurd (h a List.mem_cons_self) (by simp)
+  unfold vis
+  simp [this]
 
 end I2N.Trav
